@@ -48,6 +48,30 @@ def load_modules():
             "logger": logger, "packet": packet, "tls": tls}
 
 
+_SMALL = {}
+
+
+def small_certificate():
+    """A small self-signed P-256 certificate for "localhost" (the whole server flight then fits one datagram);
+    generated once per process."""
+    if not _SMALL:
+        import datetime
+        from cryptography import x509
+        from cryptography.hazmat.primitives import hashes, serialization
+        from cryptography.hazmat.primitives.asymmetric import ec
+        key = ec.generate_private_key(ec.SECP256R1())
+        name = x509.Name([x509.NameAttribute(x509.NameOID.COMMON_NAME, "localhost")])
+        now = datetime.datetime.now(datetime.timezone.utc)
+        cert = (x509.CertificateBuilder().subject_name(name).issuer_name(name).public_key(key.public_key())
+                .serial_number(4711).not_valid_before(now - datetime.timedelta(days=1))
+                .not_valid_after(now + datetime.timedelta(days=30))
+                .add_extension(x509.SubjectAlternativeName([x509.DNSName("localhost")]), critical=False)
+                .add_extension(x509.BasicConstraints(ca=True, path_length=None), critical=True)
+                .sign(key, hashes.SHA256()))
+        _SMALL.update(cert=cert, key=key, pem=cert.public_bytes(serialization.Encoding.PEM))
+    return _SMALL
+
+
 class SeededUrandom:
     def __init__(self, seed):
         self.r = random.Random(seed)
@@ -133,7 +157,10 @@ class Sim:
     def _make_client(self):
         c = self._base_config(True)
         c.server_name = "localhost"
-        c.load_verify_locations(cafile=os.path.join(TESTS, "pycacert.pem"))
+        if self.cfg.get("smallcert"):
+            c.load_verify_locations(cadata=small_certificate()["pem"])
+        else:
+            c.load_verify_locations(cafile=os.path.join(TESTS, "pycacert.pem"))
         if self.cfg.get("session_ticket") is not None:
             c.session_ticket = self.cfg["session_ticket"]
         self.tickets = []
@@ -145,7 +172,11 @@ class Sim:
     def _make_server(self, odcid):
         c = self._base_config(False)
         cert = "ssl_cert_with_chain.pem" if self.cfg["chain"] else "ssl_cert.pem"
-        c.load_cert_chain(os.path.join(TESTS, cert), os.path.join(TESTS, "ssl_key.pem"))
+        if self.cfg.get("smallcert"):
+            sc = small_certificate()
+            c.certificate, c.certificate_chain, c.private_key = sc["cert"], [], sc["key"]
+        else:
+            c.load_cert_chain(os.path.join(TESTS, cert), os.path.join(TESTS, "ssl_key.pem"))
         kw = {}
         if self.cfg.get("ticket_store") is not None:
             store = self.cfg["ticket_store"]
